@@ -10,7 +10,9 @@ Search: real Output traces of source and result from reset compared with each ot
         by name) and traces of the source before/after each call; working_block() identity;
         id()-disjointness of wire and memory objects; random edit/simulate sequences on one block
         with the other re-fingerprinted and re-simulated (interleaved simulations)."""
+import contextlib
 import hashlib
+import io
 import pyrtl
 import gen_designs
 import nlx
@@ -177,6 +179,11 @@ def out_trace(block, tracer, ncyc):
 
 
 def call_api(api, block):
+    with contextlib.redirect_stdout(io.StringIO()):   # optimize prints "deemed useless" notes
+        return _call_api(api, block)
+
+
+def _call_api(api, block):
     if api == 'copy_block':
         return pyrtl.copy_block(block, update_working_block=False)
     if api == 'synthesize':
@@ -254,6 +261,9 @@ def attribute(api, src, src_trace, res_trace, ncyc):
             if rv is not None and rv != src_trace[r.name][t]:
                 return ('reset' if t == 0 else 'r'), 'register %s at cycle %d: %s vs %s' % (
                     r.name, t, src_trace[r.name][t], rv)
+    for r in sorted(src.wirevector_subset(pyrtl.Register), key=lambda w: w.name):
+        if res_value(api, res_trace, r, 0) is None:
+            return 'r', 'register %s has no counterpart in the result (folded away)' % r.name
     return '?', ''
 
 
@@ -560,7 +570,7 @@ def edit_phase(ctx, i, api, scenario, d, res, memmap_by_id, inputs, rep_base):
 # ---------------------------------------------------------------- driver
 
 def run(ctx, only=None):
-    ndesigns = 45 if ctx.tier == 'quick' else 400
+    ndesigns = 36 if ctx.tier == 'quick' else 400
     spec_exprs, spec_meta = [], []
     tie_exprs, tie_meta = [], []
     for i in (range(ndesigns) if only is None else [only]):
@@ -674,10 +684,11 @@ def run(ctx, only=None):
                                    'got %s)' % (diffs[0] if diffs else ('length %d' % len(required), 'length %d' % len(real))),
                                    rep)
         if real != model_asis:
-            hint = ''
+            hint = (' -- `clone_kind` in coq/theories/Pass/Copy.v says what transform.clone_wire does (clone_kind_spec: keeps '
+                    'every attribute; clone_kind_f2: drops reset_value); it no longer matches /repo: switch it and swap the '
+                    'marked theorem in Props/C11.v')
             if real == required:
-                hint = (' -- the real copy now keeps every attribute: set `clone_kind := clone_kind_spec` in coq/theories/Pass/Copy.v '
-                        'and swap the marked theorem in Props/C11.v (F2 repaired)')
+                hint += ' (the real copy keeps every attribute: use clone_kind_spec)'
             ctx.model_mismatch('Pass/Copy.v copy_block (model of the code as it is) differs from the real copy_block result'
                                + hint, rep)
 
